@@ -214,51 +214,68 @@ theorem C04_retry_attempts_independent (hl : List Str) (repl : Str → Str) (u1 
 list with hop-by-hop names emptied and the one header_downstream rule aimed at that name applied,
 merged with what the ResponseWriter already held (kept for the skip list, both for `Server`,
 replaced otherwise); `Trailer` announces exactly the backend's announced trailer names. -/
-theorem C04_response_headers_exact (hl sk : List Str) (hc : CanonicalNames hl) (repl : Str → Str) (down : Rules)
-    (pre : Hdr) (res : Response) (hg : Good res.header) (hni : nonInterfering down = true) (k : Str) :
-    (respond hl sk repl down pre res).header.vals k =
+theorem C04_response_headers_exact (hl sk : List Str) (hc : CanonicalNames hl) (repl : Str → Str) (down : Rules) (dr : Repls)
+    (pre : Hdr) (res : Response) (hg : Good res.header) (hni : nonInterfering down = true) (hrd : replsDistinct dr = true) (k : Str) :
+    (respond hl sk repl down dr pre res).header.vals k =
       if res.announced.length > 0 ∧ k = sTrailer then res.announced
-      else expectRespVals hl sk repl down pre res k :=
-  vals_respond hl sk hc repl down pre res hg hni k
+      else expectRespVals hl sk repl down dr pre res k :=
+  vals_respond hl sk hc repl down dr pre res hg hni hrd k
 
 /-- The status code is not touched. -/
-theorem C04_status_untouched (hl sk : List Str) (repl : Str → Str) (down : Rules) (pre : Hdr) (res : Response) :
-    (respond hl sk repl down pre res).status = res.status := rfl
+theorem C04_status_untouched (hl sk : List Str) (repl : Str → Str) (down : Rules) (dr : Repls) (pre : Hdr) (res : Response) :
+    (respond hl sk repl down dr pre res).status = res.status := rfl
 
 /-- End-to-end response headers reach the client intact when the ResponseWriter did not hold that
 name before and no rule is aimed at it. -/
-theorem C04_response_end_to_end_preserved (hl sk : List Str) (hc : CanonicalNames hl) (repl : Str → Str) (down : Rules)
-    (pre : Hdr) (res : Response) (hg : Good res.header) (hni : nonInterfering down = true) (k : Str)
-    (he2e : isHop hl res.header k = false) (hpre : pre.has k = false) (hr : Untargeted down k) (ht : k ≠ sTrailer) :
-    (respond hl sk repl down pre res).header.vals k = res.header.vals k := by
-  rw [vals_respond hl sk hc repl down pre res hg hni]
+theorem C04_response_end_to_end_preserved (hl sk : List Str) (hc : CanonicalNames hl) (repl : Str → Str) (down : Rules) (dr : Repls)
+    (pre : Hdr) (res : Response) (hg : Good res.header) (hni : nonInterfering down = true) (hrd : replsDistinct dr = true) (k : Str)
+    (he2e : isHop hl res.header k = false) (hpre : pre.has k = false) (hr : Untargeted down k)
+    (hr2 : (replTargets dr).contains k = false) (ht : k ≠ sTrailer) :
+    (respond hl sk repl down dr pre res).header.vals k = res.header.vals k := by
+  rw [vals_respond hl sk hc repl down dr pre res hg hni hrd]
   simp only [ht, and_false, if_false]
   unfold expectRespVals
   simp only [he2e, hpre, Bool.false_eq_true, if_false]
+  rw [replEffect_none _ _ _ _ hr2]
   exact ruleEffect_none _ _ _ _ hr
 
 /-- A hop-by-hop response header (on the list, or named on any `Connection` line of the response)
 never reaches the client, whatever its values — unless the ResponseWriter already held that name
 or a rule re-adds it. -/
-theorem C04_response_hop_removed (hl sk : List Str) (hc : CanonicalNames hl) (repl : Str → Str) (down : Rules)
-    (pre : Hdr) (res : Response) (hg : Good res.header) (hni : nonInterfering down = true) (k : Str)
-    (hh : isHop hl res.header k = true) (hpre : pre.has k = false) (hr : Untargeted down k) (ht : k ≠ sTrailer) :
-    (respond hl sk repl down pre res).header.vals k = [] := by
-  rw [vals_respond hl sk hc repl down pre res hg hni]
+theorem C04_response_hop_removed (hl sk : List Str) (hc : CanonicalNames hl) (repl : Str → Str) (down : Rules) (dr : Repls)
+    (pre : Hdr) (res : Response) (hg : Good res.header) (hni : nonInterfering down = true) (hrd : replsDistinct dr = true) (k : Str)
+    (hh : isHop hl res.header k = true) (hpre : pre.has k = false) (hr : Untargeted down k)
+    (hr2 : (replTargets dr).contains k = false) (ht : k ≠ sTrailer) :
+    (respond hl sk repl down dr pre res).header.vals k = [] := by
+  rw [vals_respond hl sk hc repl down dr pre res hg hni hrd]
   simp only [ht, and_false, if_false]
   unfold expectRespVals
   simp only [hh, hpre, if_true, Bool.false_eq_true, if_false]
+  rw [replEffect_none _ _ _ _ hr2]
   exact ruleEffect_none _ _ _ _ hr
 
 /-- Exactly the configured header_downstream changes: with the ResponseWriter empty, the headers
-with the rules equal the rule effect on the headers without any rule, name by name. -/
-theorem C04_downstream_rules_exact (hl sk : List Str) (hc : CanonicalNames hl) (repl : Str → Str) (down : Rules)
-    (res : Response) (hg : Good res.header) (hni : nonInterfering down = true) (k : Str) (ht : k ≠ sTrailer) :
-    (respond hl sk repl down [] res).header.vals k =
-      ruleEffect repl down k ((respond hl sk repl [] [] res).header.vals k) := by
-  rw [vals_respond hl sk hc repl down [] res hg hni, vals_respond hl sk hc repl [] [] res hg rfl]
+with the rules and the (literal) replacements equal the replacement effect of the rule effect on
+the headers without any of them, name by name — in particular for blocks that configure only
+replacements, only plain rules, or both. -/
+theorem C04_downstream_rules_exact (hl sk : List Str) (hc : CanonicalNames hl) (repl : Str → Str) (down : Rules) (dr : Repls)
+    (res : Response) (hg : Good res.header) (hni : nonInterfering down = true) (hrd : replsDistinct dr = true) (k : Str) (ht : k ≠ sTrailer) :
+    (respond hl sk repl down dr [] res).header.vals k =
+      replEffect repl dr k (ruleEffect repl down k ((respond hl sk repl [] [] [] res).header.vals k)) := by
+  rw [vals_respond hl sk hc repl down dr [] res hg hni hrd, vals_respond hl sk hc repl [] [] [] res hg rfl rfl]
   simp only [ht, and_false, if_false]
   rfl
+
+/-- A block with only replacement rules still applies them: the replacement aimed at `k` acts on the
+backend's (hop-stripped) value list. -/
+theorem C04_downstream_replacements_alone (hl sk : List Str) (hc : CanonicalNames hl) (repl : Str → Str) (dr : Repls)
+    (res : Response) (hg : Good res.header) (hrd : replsDistinct dr = true) (k : Str) (ht : k ≠ sTrailer)
+    (he2e : isHop hl res.header k = false) :
+    (respond hl sk repl [] dr [] res).header.vals k = replEffect repl dr k (res.header.vals k) := by
+  rw [vals_respond hl sk hc repl [] dr [] res hg rfl hrd]
+  simp only [ht, and_false, if_false]
+  unfold expectRespVals
+  simp [he2e, Hdr.has, ruleEffect]
 
 theorem sameMembers_self (a : List Str) : sameMembers a a = true := by
   simp [sameMembers]
@@ -266,16 +283,16 @@ theorem sameMembers_self (a : List Str) : sameMembers a a = true := by
 /-- The status-and-header part of the judged response predicate: the model's answer always gets
 "ok" (no side condition on trailers needed). -/
 theorem C04_response_head_model_verdict_ok (hl sk : List Str) (hc : CanonicalNames hl) (repl : Str → Str)
-    (down : Rules) (pre : Hdr) (res : Response) (hg : Good res.header) (hni : nonInterfering down = true) :
-    verdictRespHead hl sk repl down pre res (respond hl sk repl down pre res).status
-      (respond hl sk repl down pre res).header = "ok" := by
-  have hfind : (respKeys hl down pre res (respond hl sk repl down pre res).header).find? (fun k =>
+    (down : Rules) (dr : Repls) (pre : Hdr) (res : Response) (hg : Good res.header) (hni : nonInterfering down = true) (hrd : replsDistinct dr = true) :
+    verdictRespHead hl sk repl down dr pre res (respond hl sk repl down dr pre res).status
+      (respond hl sk repl down dr pre res).header = "ok" := by
+  have hfind : (respKeys hl down dr pre res (respond hl sk repl down dr pre res).header).find? (fun k =>
       if k == sTrailer && res.announced.length > 0 then
-        !sameMembers ((respond hl sk repl down pre res).header.vals k) res.announced
-      else (respond hl sk repl down pre res).header.vals k != expectRespVals hl sk repl down pre res k) = none := by
+        !sameMembers ((respond hl sk repl down dr pre res).header.vals k) res.announced
+      else (respond hl sk repl down dr pre res).header.vals k != expectRespVals hl sk repl down dr pre res k) = none := by
     rw [List.find?_eq_none]
     intro k _
-    rw [vals_respond hl sk hc repl down pre res hg hni k]
+    rw [vals_respond hl sk hc repl down dr pre res hg hni hrd k]
     by_cases hk : k = sTrailer
     · by_cases ha : res.announced.length > 0
       · simp [hk, ha, sameMembers_self]
@@ -291,27 +308,27 @@ trailer was not announced all of them through `Trailer:`-prefixed keys — for e
 and every response, under the side conditions of `TrailerSide` (what net/http guarantees about
 `res.Trailer`; trailer names and header names do not collide).  "Reach the client" is
 `clientTrailers`: the net/http server rule for which keys of the final header map are sent as trailers. -/
-theorem C04_trailers_preserved (hl sk : List Str) (repl : Str → Str) (down : Rules) (pre : Hdr) (res : Response)
-    (hs : TrailerSide (mergedHeader hl sk repl down pre res) res) (k : Str) :
-    (clientTrailers (respond hl sk repl down pre res)).vals k = res.trailer.vals k :=
-  clientTrailers_respond hl sk repl down pre res hs k
+theorem C04_trailers_preserved (hl sk : List Str) (repl : Str → Str) (down : Rules) (dr : Repls) (pre : Hdr) (res : Response)
+    (hs : TrailerSide (mergedHeader hl sk repl down dr pre res) res) (k : Str) :
+    (clientTrailers (respond hl sk repl down dr pre res)).vals k = res.trailer.vals k :=
+  clientTrailers_respond hl sk repl down dr pre res hs k
 
 /-- The whole judged response predicate (status, headers, trailers): the model's answer always
 gets "ok". (The same `verdictResp` is applied by the driver to the implementation's answers.) -/
 theorem C04_response_model_verdict_ok (hl sk : List Str) (hc : CanonicalNames hl) (repl : Str → Str)
-    (down : Rules) (pre : Hdr) (res : Response) (hg : Good res.header) (hni : nonInterfering down = true)
-    (hs : TrailerSide (mergedHeader hl sk repl down pre res) res) :
-    verdictResp hl sk repl down pre res (respond hl sk repl down pre res).status
-      (respond hl sk repl down pre res).header (clientTrailers (respond hl sk repl down pre res)) = "ok" := by
+    (down : Rules) (dr : Repls) (pre : Hdr) (res : Response) (hg : Good res.header) (hni : nonInterfering down = true) (hrd : replsDistinct dr = true)
+    (hs : TrailerSide (mergedHeader hl sk repl down dr pre res) res) :
+    verdictResp hl sk repl down dr pre res (respond hl sk repl down dr pre res).status
+      (respond hl sk repl down dr pre res).header (clientTrailers (respond hl sk repl down dr pre res)) = "ok" := by
   unfold verdictResp
-  rw [C04_response_head_model_verdict_ok hl sk hc repl down pre res hg hni]
+  rw [C04_response_head_model_verdict_ok hl sk hc repl down dr pre res hg hni hrd]
   simp only [bne_self_eq_false, Bool.false_eq_true, if_false]
   unfold verdictRespTrailers
-  have : (res.trailer.keys ++ (clientTrailers (respond hl sk repl down pre res)).keys).find?
-      (fun k => (clientTrailers (respond hl sk repl down pre res)).vals k != res.trailer.vals k) = none := by
+  have : (res.trailer.keys ++ (clientTrailers (respond hl sk repl down dr pre res)).keys).find?
+      (fun k => (clientTrailers (respond hl sk repl down dr pre res)).vals k != res.trailer.vals k) = none := by
     rw [List.find?_eq_none]
     intro k _
-    simp [C04_trailers_preserved hl sk repl down pre res hs k]
+    simp [C04_trailers_preserved hl sk repl down dr pre res hs k]
   rw [this]
 
 /-! ### exactly what the driver composes
@@ -339,8 +356,8 @@ theorem expectReqVals_spec (repl : Str → Str) (u : Upstream) (r : Request) (k 
   unfold expectReqVals isHop
   rw [hop_contains_eq]
 
-theorem expectRespVals_spec (repl : Str → Str) (down : Rules) (pre : Hdr) (res : Response) (k : Str) :
-    expectRespVals specHop specSkip repl down pre res k = expectRespVals hop skip repl down pre res k := by
+theorem expectRespVals_spec (repl : Str → Str) (down : Rules) (dr : Repls) (pre : Hdr) (res : Response) (k : Str) :
+    expectRespVals specHop specSkip repl down dr pre res k = expectRespVals hop skip repl down dr pre res k := by
   unfold expectRespVals isHop
   rw [hop_contains_eq, skip_contains_eq]
 
@@ -364,20 +381,20 @@ theorem C04_request_driver_verdict_ok (repl : Str → Str) (u : Upstream) (r : R
   simp
 
 /-- The response-side verdict the driver computes on the model's own answer is "ok". -/
-theorem C04_response_driver_verdict_ok (repl : Str → Str) (down : Rules) (pre : Hdr) (res : Response)
-    (hg : Good res.header) (hni : nonInterfering down = true)
-    (hs : TrailerSide (mergedHeader hop skip repl down pre res) res) :
-    verdictResp specHop specSkip repl down pre res (respond hop skip repl down pre res).status
-      (respond hop skip repl down pre res).header (clientTrailers (respond hop skip repl down pre res)) = "ok" := by
-  have hhead : verdictRespHead specHop specSkip repl down pre res (respond hop skip repl down pre res).status
-      (respond hop skip repl down pre res).header = "ok" := by
-    have hfind : (respKeys specHop down pre res (respond hop skip repl down pre res).header).find? (fun k =>
+theorem C04_response_driver_verdict_ok (repl : Str → Str) (down : Rules) (dr : Repls) (pre : Hdr) (res : Response)
+    (hg : Good res.header) (hni : nonInterfering down = true) (hrd : replsDistinct dr = true)
+    (hs : TrailerSide (mergedHeader hop skip repl down dr pre res) res) :
+    verdictResp specHop specSkip repl down dr pre res (respond hop skip repl down dr pre res).status
+      (respond hop skip repl down dr pre res).header (clientTrailers (respond hop skip repl down dr pre res)) = "ok" := by
+  have hhead : verdictRespHead specHop specSkip repl down dr pre res (respond hop skip repl down dr pre res).status
+      (respond hop skip repl down dr pre res).header = "ok" := by
+    have hfind : (respKeys specHop down dr pre res (respond hop skip repl down dr pre res).header).find? (fun k =>
         if k == sTrailer && res.announced.length > 0 then
-          !sameMembers ((respond hop skip repl down pre res).header.vals k) res.announced
-        else (respond hop skip repl down pre res).header.vals k != expectRespVals specHop specSkip repl down pre res k) = none := by
+          !sameMembers ((respond hop skip repl down dr pre res).header.vals k) res.announced
+        else (respond hop skip repl down dr pre res).header.vals k != expectRespVals specHop specSkip repl down dr pre res k) = none := by
       rw [List.find?_eq_none]
       intro k _
-      rw [expectRespVals_spec, vals_respond hop skip C04_hop_names_canonical repl down pre res hg hni k]
+      rw [expectRespVals_spec, vals_respond hop skip C04_hop_names_canonical repl down dr pre res hg hni hrd k]
       by_cases hk : k = sTrailer
       · by_cases ha : res.announced.length > 0
         · simp [hk, ha, sameMembers_self]
@@ -391,11 +408,11 @@ theorem C04_response_driver_verdict_ok (repl : Str → Str) (down : Rules) (pre 
   rw [hhead]
   simp only [bne_self_eq_false, Bool.false_eq_true, if_false]
   unfold verdictRespTrailers
-  have : (res.trailer.keys ++ (clientTrailers (respond hop skip repl down pre res)).keys).find?
-      (fun k => (clientTrailers (respond hop skip repl down pre res)).vals k != res.trailer.vals k) = none := by
+  have : (res.trailer.keys ++ (clientTrailers (respond hop skip repl down dr pre res)).keys).find?
+      (fun k => (clientTrailers (respond hop skip repl down dr pre res)).vals k != res.trailer.vals k) = none := by
     rw [List.find?_eq_none]
     intro k _
-    simp [C04_trailers_preserved hop skip repl down pre res hs k]
+    simp [C04_trailers_preserved hop skip repl down dr pre res hs k]
   rw [this]
 
 /-! Non-vacuity: concrete instances of the hypotheses and of the interesting cases. -/
@@ -447,7 +464,7 @@ example : Good exampleResponse.header := by
 /-- test: X-Internal and Keep-Alive are gone, both cookies arrive in order, the ResponseWriter's
 Content-Type wins, Server is removed by the rule, the status is 404 -/
 example :
-    let v := respond hop skip id [([45, 83, 101, 114, 118, 101, 114], [[]])]
+    let v := respond hop skip id [([45, 83, 101, 114, 118, 101, 114], [[]])] []
       [([67, 111, 110, 116, 101, 110, 116, 45, 84, 121, 112, 101], [[112]])] exampleResponse
     v.status = 404 ∧
     v.header.vals [88, 45, 73, 110, 116, 101, 114, 110, 97, 108] = [] ∧
@@ -455,6 +472,14 @@ example :
     v.header.vals [83, 101, 116, 45, 67, 111, 111, 107, 105, 101] = [[97], [98]] ∧
     v.header.vals [67, 111, 110, 116, 101, 110, 116, 45, 84, 121, 112, 101] = [[112]] ∧
     v.header.vals sServer = [] := by decide
+
+/-- test: a block with ONLY a downstream replacement (no plain rule): `Location: internal/x` is
+rewritten to `public/x` (Location = 76 111 99 97 116 105 111 110) -/
+example :
+    (respond hop skip id [] [([108, 111, 99, 97, 116, 105, 111, 110],
+        [([105, 110, 116, 101, 114, 110, 97, 108], [112, 117, 98, 108, 105, 99])])] []
+      { exampleResponse with header := ([76, 111, 99, 97, 116, 105, 111, 110], [[105, 110, 116, 101, 114, 110, 97, 108, 47, 120]]) :: exampleResponse.header }).header.vals
+      [76, 111, 99, 97, 116, 105, 111, 110] = [[112, 117, 98, 108, 105, 99, 47, 120]] := by decide
 
 /-- test: one announced trailer (X-Sum) and one unannounced (Grpc-Status) -/
 def exampleTrailerResponse : Response :=
@@ -465,7 +490,7 @@ def exampleTrailerResponse : Response :=
 theorem has_of_keys {h : Hdr} {P : Str → Prop} (hk : ∀ k ∈ h.keys, P k) : ∀ k, h.has k = true → P k :=
   fun k hh => hk k ((mem_keys h k).mpr hh)
 
-example : TrailerSide (mergedHeader hop skip id [] [] exampleTrailerResponse) exampleTrailerResponse := by
+example : TrailerSide (mergedHeader hop skip id [] [] [] exampleTrailerResponse) exampleTrailerResponse := by
   refine ⟨⟨?_, ?_⟩, ?_, ?_, ?_, has_of_keys ?_, ?_, ?_⟩
   · unfold CanonicalKeys; decide
   · unfold Hdr.NoEmpty; decide
@@ -477,7 +502,7 @@ example : TrailerSide (mergedHeader hop skip id [] [] exampleTrailerResponse) ex
   · decide
 /-- test: both trailers reach the client (through the prefixed keys, since one was unannounced) -/
 example :
-    let v := respond hop skip id [] [] exampleTrailerResponse
+    let v := respond hop skip id [] [] [] exampleTrailerResponse
     (clientTrailers v).vals [88, 45, 83, 117, 109] = [[97, 98]] ∧
     (clientTrailers v).vals [71, 114, 112, 99, 45, 83, 116, 97, 116, 117, 115] = [[48]] ∧
     v.header.vals sTrailer = [[88, 45, 83, 117, 109]] := by decide
